@@ -18,7 +18,12 @@ import (
 	"golang.org/x/tools/go/ssa/ssautil"
 )
 
-const repoRoot = "/repo"
+var repoRoot = func() string {
+	if r := os.Getenv("GCV_REPO"); r != "" {
+		return r // development only: a scratch worktree; registered commands never set this
+	}
+	return "/repo"
+}()
 
 var verifRoot = "/verif"
 
